@@ -55,7 +55,7 @@ func edgeTrace(c *an.Ctx) *edgeTraceResult {
 	res.add = add
 	for _, l := range an.Loops(add) {
 		op := l.RangeOperand()
-		if op != nil && an.AccessPath(op).LastField() == "DependsOn" {
+		if op != nil && an.AccessPath(an.ContentOf(op)).LastField() == "DependsOn" {
 			res.loop = l
 		}
 	}
